@@ -32,11 +32,14 @@ SCOPE = (
     "with relabelled nodes, (c) seeded random connected graphs with 6..14 (thorough: ..30) nodes, "
     "(d) a chain of 26 unit resistors and 3 (thorough: 24) random connected graphs with 26..30 "
     "(..40) nodes. "
-    "Resistances: seeded multiples of 1/8 in [0.25, 10] (exactly representable, so the rational "
-    "oracle sees the same numbers); complex impedances re, im multiples of 1/8, re>0. Every network "
+    "Resistances: seeded multiples of 1/8 in [0.25, 10] times an overall scale from {1, 1e-6, 1e-3, "
+    "1e3, 1e6, 1e9} (the rational oracle converts the very float64 numbers handed to the library); "
+    "complex impedances re, im multiples of 1/8 (times the scale), re>0. Every network "
     "is observed after construction and after each call of a history of 1..3 update_resistances "
     "calls (new values / positive or complex multiple of the previous values / unit int8 "
-    "adjacency as resistances / real<->complex switch / list input), with average, diameter or "
+    "adjacency as resistances / real<->complex switch / list input / the caller editing IN PLACE the "
+    "array object it passed before (which the library holds by reference) and passing the same "
+    "object again; scale factors incl. 1e-6..1e9), with average, diameter or "
     "nothing evaluated before the update and diameter or average evaluated first afterwards. "
     "Tolerances: float64 quantities 1e-9 relative to the largest magnitude of the quantity "
     "(pseudo-inverse entries for R and effective resistances); current-flow betweenness (float32 "
@@ -125,28 +128,35 @@ def lib_input(step, A):
     return R
 
 
-def draw_res(rng, A, cplx=False):
+def draw_res(rng, A, cplx=False, rscale=1.0):
+    """Seeded resistances k/8 (k = 2..80) times the overall scale `rscale` (1e-6 .. 1e9)."""
     n = len(A)
     re = np.zeros((n, n))
     im = np.zeros((n, n)) if cplx else None
     for i in range(n):
         for j in range(i + 1, n):
             if A[i][j]:
-                re[i, j] = re[j, i] = rng.randint(2, 81) / 8.0
+                re[i, j] = re[j, i] = rng.randint(2, 81) / 8.0 * rscale
                 if cplx:
-                    im[i, j] = im[j, i] = rng.randint(-40, 41) / 8.0
+                    im[i, j] = im[j, i] = rng.randint(-40, 41) / 8.0 * rscale
     return {"re": re.tolist(), "im": None if im is None else im.tolist()}
 
 
-def next_step(rng, A, prev, kind):
+def next_step(rng, A, prev, kind, rscale=1.0):
     Aa = np.array(A)
     if kind == "new":
-        return draw_res(rng, A, cplx=False)
+        return draw_res(rng, A, cplx=False, rscale=rscale)
     if kind == "complex":
-        return draw_res(rng, A, cplx=True)
+        return draw_res(rng, A, cplx=True, rscale=rscale)
     if kind == "list":
-        st = draw_res(rng, A, cplx=False)
+        st = draw_res(rng, A, cplx=False, rscale=rscale)
         st["as"] = "list"
+        return st
+    if kind == "inplace":
+        # the caller edits, in place, the very array object it passed before (constructor or last
+        # update) -- which the library may hold by reference -- and passes that object again
+        st = draw_res(rng, A, cplx=prev.get("im") is not None, rscale=rscale)
+        st["as"] = "inplace"
         return st
     if kind == "unit":
         return {"re": (Aa != 0).astype(float).tolist(), "im": None, "as": "int8"}
@@ -160,23 +170,26 @@ def next_step(rng, A, prev, kind):
                 c = complex(rng.randint(1, 25) / 8.0, 0.0)
                 Q = P * c
             return {"re": Q.real.tolist(), "im": Q.imag.tolist(), "scale": [c.real, c.imag]}
-        c = [0.125, 0.5, 2.0, 3.0, 10.0, 0.375][rng.randint(0, 6)]
+        small = [0.125, 0.5, 2.0, 3.0, 10.0, 0.375]
+        c = (small if rscale != 1.0 else small + [1e-6, 1e-3, 1e3, 1e6, 1e9, 1e6])[rng.randint(0, 6 if rscale != 1.0 else 12)]
         return {"re": (P * c).tolist(), "im": None, "scale": [c, 0.0]}
     raise ValueError(kind)
 
 
-KINDS = ["scale", "new", "unit", "complex", "list"]
+KINDS = ["scale", "new", "unit", "complex", "list", "inplace"]
 PRIMES = ["average", "diameter", "none"]
+RSCALES = [1.0, 1e6, 1.0, 1e-6, 1e9, 1.0, 1e3, 1e-3]
 
 
 def make_scenario(rng, sid, A, variant, nsteps=1, cplx0=False, law=None):
     A = [[int(x != 0) for x in row] for row in np.asarray(A).tolist()]
-    steps = [draw_res(rng, A, cplx=cplx0)]
+    rscale = RSCALES[(variant // 3) % len(RSCALES)]
+    steps = [draw_res(rng, A, cplx=cplx0, rscale=rscale)]
     primes = []
     orders = ["avg-first" if variant % 2 == 0 else "diam-first"]
     for k in range(nsteps):
-        kind = KINDS[(variant + 2 * k) % len(KINDS)]
-        steps.append(next_step(rng, A, steps[-1], kind))
+        kind = KINDS[(variant + 5 * k) % len(KINDS)]
+        steps.append(next_step(rng, A, steps[-1], kind, rscale))
         primes.append(PRIMES[(variant // 2 + k) % 3])
         orders.append("diam-first" if (variant + k) % 3 != 2 else "avg-first")
     return {"id": sid, "adjacency": A, "ctor": "adjacency" if variant % 2 else "implicit",
@@ -391,10 +404,11 @@ def check_state(rec, net, scen, k, prevER):
     ev("admittive_degree/definition", near(ad, o["ad"], _maxabs(o["ad"]), 1e-12),
        lambda: "got %r expected %r" % (np.asarray(ad).tolist(), o["ad"].tolist()))
     ac = net.local_admittive_clustering()
-    ev("local_admittive_clustering/definition", near(ac, o["ac"], max(_maxabs(o["ac"]), 1e-3), 1e-10),
+    acs = max(_maxabs(o["ac"]), 1e-3 * _maxabs(o["G"]) ** 2)      # ac scales like admittance squared
+    ev("local_admittive_clustering/definition", near(ac, o["ac"], acs, 1e-10),
        lambda: "got %r expected %r" % (np.asarray(ac).tolist(), o["ac"].tolist()))
     gac = net.global_admittive_clustering()
-    ev("global_admittive_clustering/definition", near(gac, o["ac"].mean(), max(_maxabs(o["ac"]), 1e-3), 1e-10),
+    ev("global_admittive_clustering/definition", near(gac, o["ac"].mean(), acs, 1e-10),
        lambda: "got %r expected %r" % (gac, o["ac"].mean()))
     if not cplx:
         an = net.average_neighbors_admittive_degree()
@@ -428,12 +442,12 @@ def run_scenario(scen, rec=None):
     rec = Rec() if rec is None else rec
     A = scen["adjacency"]
     try:
+        passed = lib_input(scen["steps"][0], A)
         with quiet():
             if scen.get("ctor") == "adjacency":
-                net = ResNetwork(lib_input(scen["steps"][0], A), adjacency=np.array(A, dtype=np.int8),
-                                 silence_level=3)
+                net = ResNetwork(passed, adjacency=np.array(A, dtype=np.int8), silence_level=3)
             else:
-                net = ResNetwork(lib_input(scen["steps"][0], A), silence_level=3)
+                net = ResNetwork(passed, silence_level=3)
         ev_n = getattr(net, "N", None)
         rec.case(None)
         if ev_n != len(A) or not (np.asarray(net.adjacency) == np.array(A)).all():
@@ -443,12 +457,23 @@ def run_scenario(scen, rec=None):
         prev = check_state(rec, net, scen, 0, None)
         for k in range(1, len(scen["steps"])):
             prime = scen["primes"][k - 1]
+            st = scen["steps"][k]
+            new = lib_input(st, A)
+            if st.get("as") == "inplace":
+                want = res_matrix(st, A)
+                for held in (passed, getattr(net, "resistances", None)):
+                    if isinstance(held, np.ndarray) and held.shape == want.shape and held.flags.writeable \
+                            and held.dtype == want.dtype:
+                        held[...] = want        # in-place edit of the array the caller already handed over
+                        new = held
+                        break
             with quiet():
                 if prime == "average":
                     net.average_effective_resistance()
                 elif prime == "diameter" and not net.flagComplex:
                     net.diameter_effective_resistance()
-                net.update_resistances(lib_input(scen["steps"][k], A))
+                net.update_resistances(new)
+            passed = new
             prev = check_state(rec, net, scen, k, prev)
     except Exception as e:   # the library raised on an in-scope input
         import traceback
